@@ -33,7 +33,7 @@ build_harness() { # profile...
   return 0
 }
 
-needs_dbgchk() { case "$1" in C04|C08|C12|C13|C15|C19|setup) return 0;; *) return 1;; esac; }
+needs_dbgchk() { case "$1" in C04|C08|C12|C13|C15|C16|C19|setup) return 0;; *) return 1;; esac; }
 
 if [ $# -lt 1 ]; then echo "usage: $0 <ID> quick|thorough | <ID> --replay <file> | setup" >&2; exit 2; fi
 ID="$1"; shift
@@ -43,7 +43,7 @@ if [ "$ID" = "setup" ]; then
   "$VERIF_DIR/fuzz/build.sh" asan || exit 2
   "$VERIF_DIR/fuzz/build.sh" asanrel || exit 2
   # Miri sysroots and the interpreted harness (32-bit-limb stage of C14/C05, thorough-tier Miri stages)
-  (cd "$VERIF_DIR/harness" && for t in i686-unknown-linux-gnu x86_64-unknown-linux-gnu; do
+  (cd "$VERIF_DIR/harness" && for t in i686-unknown-linux-gnu powerpc-unknown-linux-gnu x86_64-unknown-linux-gnu; do
      MIRIFLAGS="-Zmiri-tree-borrows -Zmiri-disable-isolation -Zmiri-no-extra-rounding-error" CARGO_TARGET_DIR="$BUILD/miri" \
        cargo +nightly miri run -q --target $t -p mlv --bin mlv-miri -- L32 0 0 >"$BUILD/miri-setup-$t.log" 2>&1 || { cat "$BUILD/miri-setup-$t.log" >&2; exit 2; }
    done) || exit 2
